@@ -1,55 +1,1757 @@
-//! C16 probe (temporary skeleton)
-use rs_matter::tlv::{FromTLV, TLVArray, TLVElement, TLVTag, TLVValue, TLVWrite, ToTLV, TLV};
-use rs_matter::utils::storage::WriteBuf;
-use rsm_harness::{catch, silence_panics};
+//! C16 correspondence harness: the TLV codec (`rs_matter::tlv`).
+//!
+//! usage: c16 gen <quick|thorough> <seed> <outdir>     writes cases.txt + stats.json
+//!        c16 run <cases-file>                         one canonical line per case from the REAL code
+//!        c16 f9                                       replays the recorded F9 witnesses
+//!
+//! Case lines (same as ocaml/c16/driver.ml):
+//!   R <id> <hex|->        every public accessor of TLVElement / TLVSequence / both iterators on the
+//!                         byte string, each under catch_unwind; one field per accessor:
+//!                         `=<value>` | `E` (error) | `P` (panic) | `F` (did not terminate within bound)
+//!   X <id> <hex|-> <n>    the same for all 256^n suffixes after the prefix, as a digest + panic count
+//!   T <id> <tok>...       a value tree written with TLVWrite::tlv/start_container/end_container and,
+//!                         independently, with TLV::bytes_iter; tokens L,<tag>,<val> | N,<tag>,<k> | E
+//!   W <id> <tok>          one call of the minimal-width writer API (i8..u64, str, utf8, ...), also
+//!                         through the TLV::i8.. constructors + bytes_iter
+//!   D <id> <kind> <seed>  derived ToTLV/FromTLV encoders of wire structs: round trip and hostile
+//!                         mutations under catch_unwind (implementation only; tested, not modelled)
+#![recursion_limit = "512"]
+use std::collections::BTreeMap;
+use std::fmt::Write as _;
+use std::io::Write as _;
+use std::panic::AssertUnwindSafe;
 
-fn show<T: std::fmt::Debug>(name: &str, r: Result<T, String>) {
-    match r {
-        Ok(v) => println!("{name}: returned {v:?}"),
-        Err(p) => println!("{name}: PANIC {p}"),
+use rs_matter::error::Error;
+use rs_matter::im::{
+    AttrPath, AttrStatus, ClusterPath, CmdPath, DataVersionFilter, EventPath, IMStatusCode, Status,
+    TimedReq,
+};
+use rs_matter::tlv::{
+    FromTLV, Nullable, OctetStr, Octets, TLVArray, TLVElement, TLVSequence, TLVTag, TLVValue,
+    TLVValueType, TLVWrite, ToTLV, Utf8Str, TLV,
+};
+use rs_matter::utils::storage::WriteBuf;
+use rsm_harness::{catch, silence_panics, Rng};
+
+// ------------------------------------------------------------------ canonical strings
+
+fn hex(b: &[u8]) -> String {
+    let mut s = String::with_capacity(b.len() * 2);
+    for x in b {
+        write!(s, "{:02x}", x).unwrap();
+    }
+    s
+}
+
+fn unhex(s: &str) -> Vec<u8> {
+    if s == "-" || s.is_empty() {
+        return Vec::new();
+    }
+    (0..s.len() / 2)
+        .map(|i| u8::from_str_radix(&s[2 * i..2 * i + 2], 16).unwrap())
+        .collect()
+}
+
+fn tag_s(t: &TLVTag) -> String {
+    match t {
+        TLVTag::Anonymous => "a".into(),
+        TLVTag::Context(v) => format!("c{}", v),
+        TLVTag::CommonPrf16(v) => format!("C16:{}", v),
+        TLVTag::CommonPrf32(v) => format!("C32:{}", v),
+        TLVTag::ImplPrf16(v) => format!("I16:{}", v),
+        TLVTag::ImplPrf32(v) => format!("I32:{}", v),
+        TLVTag::FullQual48 {
+            vendor_id,
+            profile,
+            tag,
+        } => format!("Q48:{}:{}:{}", vendor_id, profile, tag),
+        TLVTag::FullQual64 {
+            vendor_id,
+            profile,
+            tag,
+        } => format!("Q64:{}:{}:{}", vendor_id, profile, tag),
     }
 }
 
+fn tag_of(s: &str) -> TLVTag {
+    if s == "a" {
+        return TLVTag::Anonymous;
+    }
+    if let Some(v) = s.strip_prefix('c') {
+        return TLVTag::Context(v.parse().unwrap());
+    }
+    let p: Vec<&str> = s.split(':').collect();
+    match p[0] {
+        "C16" => TLVTag::CommonPrf16(p[1].parse().unwrap()),
+        "C32" => TLVTag::CommonPrf32(p[1].parse().unwrap()),
+        "I16" => TLVTag::ImplPrf16(p[1].parse().unwrap()),
+        "I32" => TLVTag::ImplPrf32(p[1].parse().unwrap()),
+        "Q48" => TLVTag::FullQual48 {
+            vendor_id: p[1].parse().unwrap(),
+            profile: p[2].parse().unwrap(),
+            tag: p[3].parse().unwrap(),
+        },
+        "Q64" => TLVTag::FullQual64 {
+            vendor_id: p[1].parse().unwrap(),
+            profile: p[2].parse().unwrap(),
+            tag: p[3].parse().unwrap(),
+        },
+        _ => panic!("bad tag {}", s),
+    }
+}
+
+fn val_s(v: &TLVValue) -> String {
+    match v {
+        TLVValue::S8(a) => format!("S1:{}", a),
+        TLVValue::S16(a) => format!("S2:{}", a),
+        TLVValue::S32(a) => format!("S4:{}", a),
+        TLVValue::S64(a) => format!("S8:{}", a),
+        TLVValue::U8(a) => format!("U1:{}", a),
+        TLVValue::U16(a) => format!("U2:{}", a),
+        TLVValue::U32(a) => format!("U4:{}", a),
+        TLVValue::U64(a) => format!("U8:{}", a),
+        TLVValue::False => "B0".into(),
+        TLVValue::True => "B1".into(),
+        TLVValue::F32(a) => format!("F32:{}", a.to_bits()),
+        TLVValue::F64(a) => format!("F64:{}", a.to_bits()),
+        TLVValue::Utf8l(a) => format!("T1:{}", hex(a.as_bytes())),
+        TLVValue::Utf16l(a) => format!("T2:{}", hex(a.as_bytes())),
+        TLVValue::Utf32l(a) => format!("T4:{}", hex(a.as_bytes())),
+        TLVValue::Utf64l(a) => format!("T8:{}", hex(a.as_bytes())),
+        TLVValue::Str8l(a) => format!("O1:{}", hex(a)),
+        TLVValue::Str16l(a) => format!("O2:{}", hex(a)),
+        TLVValue::Str32l(a) => format!("O4:{}", hex(a)),
+        TLVValue::Str64l(a) => format!("O8:{}", hex(a)),
+        TLVValue::Null => "N".into(),
+        TLVValue::Struct => "K0".into(),
+        TLVValue::Array => "K1".into(),
+        TLVValue::List => "K2".into(),
+        TLVValue::EndCnt => "Z".into(),
+    }
+}
+
+/// Parse a value token; string payloads are borrowed from `store`.
+fn val_of<'a>(s: &str, store: &'a [u8]) -> TLVValue<'a> {
+    match s {
+        "B0" => return TLVValue::False,
+        "B1" => return TLVValue::True,
+        "N" => return TLVValue::Null,
+        "Z" => return TLVValue::EndCnt,
+        "K0" => return TLVValue::Struct,
+        "K1" => return TLVValue::Array,
+        "K2" => return TLVValue::List,
+        _ => {}
+    }
+    let (h, b) = s.split_once(':').unwrap();
+    match h {
+        "F32" => TLVValue::F32(f32::from_bits(b.parse().unwrap())),
+        "F64" => TLVValue::F64(f64::from_bits(b.parse().unwrap())),
+        "S1" => TLVValue::S8(b.parse().unwrap()),
+        "S2" => TLVValue::S16(b.parse().unwrap()),
+        "S4" => TLVValue::S32(b.parse().unwrap()),
+        "S8" => TLVValue::S64(b.parse().unwrap()),
+        "U1" => TLVValue::U8(b.parse().unwrap()),
+        "U2" => TLVValue::U16(b.parse().unwrap()),
+        "U4" => TLVValue::U32(b.parse().unwrap()),
+        "U8" => TLVValue::U64(b.parse().unwrap()),
+        "T1" => TLVValue::Utf8l(core::str::from_utf8(store).unwrap()),
+        "T2" => TLVValue::Utf16l(core::str::from_utf8(store).unwrap()),
+        "T4" => TLVValue::Utf32l(core::str::from_utf8(store).unwrap()),
+        "T8" => TLVValue::Utf64l(core::str::from_utf8(store).unwrap()),
+        "O1" => TLVValue::Str8l(store),
+        "O2" => TLVValue::Str16l(store),
+        "O4" => TLVValue::Str32l(store),
+        "O8" => TLVValue::Str64l(store),
+        _ => panic!("bad value {}", s),
+    }
+}
+
+fn val_payload_hex(s: &str) -> Vec<u8> {
+    match s.split_once(':') {
+        Some((h, b)) if h.starts_with('T') || h.starts_with('O') => unhex(b),
+        _ => Vec::new(),
+    }
+}
+
+// ------------------------------------------------------------------ reader probes
+
+/// One accessor under catch_unwind.
+fn probe<T>(f: impl FnOnce() -> Result<T, Error>, show: impl FnOnce(T) -> String) -> String {
+    match catch(AssertUnwindSafe(f)) {
+        Err(_) => "P".into(),
+        Ok(Err(_)) => "E".into(),
+        Ok(Ok(v)) => format!("={}", show(v)),
+    }
+}
+
+/// Drain `seq.iter()` without stopping at errors; `None` = more items than the input can hold
+/// (the iterator does not terminate).
+fn items(seq: &TLVSequence, cap: usize) -> Option<String> {
+    let mut parts = Vec::new();
+    let mut it = seq.iter();
+    loop {
+        match it.next() {
+            None => break,
+            Some(Ok(e)) => parts.push(e.raw_data().len().to_string()),
+            Some(Err(_)) => parts.push("E".into()),
+        }
+        if parts.len() > cap {
+            return None;
+        }
+    }
+    Some(format!("[{}]", parts.join(",")))
+}
+
+fn tlv_items(seq: &TLVSequence, cap: usize) -> Option<String> {
+    let mut parts = Vec::new();
+    let mut it = seq.tlv_iter();
+    loop {
+        match it.next() {
+            None => break,
+            Some(Ok(t)) => parts.push(format!("{}={}", tag_s(&t.tag), val_s(&t.value))),
+            Some(Err(_)) => parts.push("E".into()),
+        }
+        if parts.len() > cap {
+            return None;
+        }
+    }
+    Some(format!("[{}]", parts.join(",")))
+}
+
+/// Decode an element into a tree through the public accessors (as `TLVElement`'s Debug impl walks it).
+fn tree_s(e: &TLVElement) -> Result<String, Error> {
+    let t = e.tag()?;
+    let v = e.value()?;
+    let k = match v {
+        TLVValue::Struct => 0,
+        TLVValue::Array => 1,
+        TLVValue::List => 2,
+        _ => return Ok(format!("L({}={})", tag_s(&t), val_s(&v))),
+    };
+    let seq = e.container()?;
+    let mut parts = Vec::new();
+    for c in seq.iter() {
+        let c = c?;
+        parts.push(tree_s(&c)?);
+    }
+    Ok(format!("N({},K{},[{}])", tag_s(&t), k, parts.join(";")))
+}
+
+fn unbounded(o: Option<String>) -> String {
+    match o {
+        Some(s) => format!("={}", s),
+        None => "F".into(),
+    }
+}
+
+fn probe_fields(bs: &[u8]) -> Vec<String> {
+    let e = TLVElement::new(bs);
+    let cap = bs.len() + 3;
+    let mut f: Vec<String> = Vec::with_capacity(56);
+    f.push(probe(|| e.control(), |c| format!("{}.{}", c.tag_type as u8, c.value_type as u8)));
+    f.push(probe(|| e.tag(), |t| tag_s(&t)));
+    f.push(probe(|| e.value(), |v| val_s(&v)));
+    f.push(probe(|| e.tlv(), |t| format!("{}={}", tag_s(&t.tag), val_s(&t.value))));
+    f.push(probe(|| e.raw_value(), |v| format!("x{}", hex(v))));
+    f.push(probe(|| e.i8(), |v| v.to_string()));
+    f.push(probe(|| e.i16(), |v| v.to_string()));
+    f.push(probe(|| e.i32(), |v| v.to_string()));
+    f.push(probe(|| e.i64(), |v| v.to_string()));
+    f.push(probe(|| e.u8(), |v| v.to_string()));
+    f.push(probe(|| e.u16(), |v| v.to_string()));
+    f.push(probe(|| e.u32(), |v| v.to_string()));
+    f.push(probe(|| e.u64(), |v| v.to_string()));
+    f.push(probe(|| e.f32(), |v| v.to_bits().to_string()));
+    f.push(probe(|| e.f64(), |v| v.to_bits().to_string()));
+    f.push(probe(|| e.str(), |v| format!("x{}", hex(v))));
+    f.push(probe(|| e.utf8(), |v| format!("x{}", hex(v.as_bytes()))));
+    f.push(probe(|| e.octets(), |v| format!("x{}", hex(v))));
+    f.push(probe(|| e.bool(), |v| (v as u8).to_string()));
+    f.push(probe(|| e.is_container(), |v| (v as u8).to_string()));
+    f.push(probe(|| e.null(), |_| "u".into()));
+    f.push(probe(|| e.structure(), |_| "u".into()));
+    f.push(probe(|| e.array(), |_| "u".into()));
+    f.push(probe(|| e.list(), |_| "u".into()));
+    f.push(probe(|| e.container(), |_| "u".into()));
+    f.push(probe(|| e.confirm_anon(), |_| "u".into()));
+    f.push(probe(|| e.ctx(), |v| v.to_string()));
+    f.push(probe(
+        || e.try_ctx(),
+        |v| match v {
+            Some(x) => x.to_string(),
+            None => "-".into(),
+        },
+    ));
+    f.push(probe(|| tree_s(&e), |s| s));
+    f.push(probe(
+        || {
+            let t = e.tag()?;
+            let mut buf = vec![0u8; bs.len() + 32];
+            let mut wb = WriteBuf::new(&mut buf);
+            e.to_tlv(&t, &mut wb)?;
+            Ok(wb.as_slice().to_vec())
+        },
+        |v| format!("x{}", hex(&v)),
+    ));
+
+    // the TLVSequence over `bs`: the content of a structure whose bytes are 0x15 :: bs
+    let mut outer = Vec::with_capacity(bs.len() + 1);
+    outer.push(0x15u8);
+    outer.extend_from_slice(bs);
+    let seq = TLVElement::new(&outer)
+        .structure()
+        .expect("structure() of 0x15 :: bs");
+    f.push(match catch(AssertUnwindSafe(|| items(&seq, cap))) {
+        Err(_) => "P".into(),
+        Ok(o) => unbounded(o),
+    });
+    f.push(match catch(AssertUnwindSafe(|| tlv_items(&seq, cap))) {
+        Err(_) => "P".into(),
+        Ok(o) => unbounded(o),
+    });
+    f.push(probe(|| seq.raw_value(), |v| format!("x{}", hex(v))));
+    let keys = [
+        0u8,
+        1,
+        2,
+        255,
+        bs.get(1).copied().unwrap_or(0),
+        bs.get(2).copied().unwrap_or(7),
+    ];
+    for k in keys {
+        f.push(probe(|| seq.find_ctx(k), |e| e.raw_data().len().to_string()));
+    }
+    for k in keys {
+        f.push(probe(|| seq.ctx(k), |e| e.raw_data().len().to_string()));
+    }
+    for k in keys {
+        let r = catch(AssertUnwindSafe(|| {
+            let mut s2 = seq.clone();
+            match s2.scan_ctx(k) {
+                Err(_) => Ok("E".to_string()),
+                Ok(el) => match items(&s2, cap) {
+                    Some(rest) => Ok(format!("={}@{}", el.raw_data().len(), rest)),
+                    None => Err(()),
+                },
+            }
+        }));
+        f.push(match r {
+            Err(_) => "P".into(),
+            Ok(Ok(s)) => s,
+            Ok(Err(())) => "F".into(),
+        });
+    }
+    f
+}
+
+fn digest_str(h: &mut u64, s: &str) {
+    for b in s.bytes() {
+        *h = (*h ^ b as u64).wrapping_mul(0x0000_0100_0000_01b3);
+    }
+}
+
+// ------------------------------------------------------------------ writer
+
+struct Tok {
+    kind: String,
+    tag: TLVTag,
+    arg: String,
+    payload: Vec<u8>,
+}
+
+fn parse_tok(t: &str) -> Tok {
+    let p: Vec<&str> = t.split(',').collect();
+    if p[0] == "E" {
+        return Tok {
+            kind: "E".into(),
+            tag: TLVTag::Anonymous,
+            arg: String::new(),
+            payload: Vec::new(),
+        };
+    }
+    let arg = p.get(2).copied().unwrap_or("").to_string();
+    let payload = match p[0] {
+        "L" => val_payload_hex(&arg),
+        "str" | "utf8" => unhex(&arg),
+        _ => Vec::new(),
+    };
+    Tok {
+        kind: p[0].to_string(),
+        tag: tag_of(p[1]),
+        arg,
+        payload,
+    }
+}
+
+fn kind_vt(k: &str) -> TLVValueType {
+    match k {
+        "0" => TLVValueType::Struct,
+        "1" => TLVValueType::Array,
+        _ => TLVValueType::List,
+    }
+}
+
+/// Write the tokens through `TLVWrite`.
+fn write_direct(toks: &[Tok], buf: &mut [u8]) -> Result<Vec<u8>, Error> {
+    let mut wb = WriteBuf::new(buf);
+    for t in toks {
+        let tag = &t.tag;
+        match t.kind.as_str() {
+            "L" => wb.tlv(tag, &val_of(&t.arg, &t.payload))?,
+            "N" => wb.start_container(tag, kind_vt(&t.arg))?,
+            "E" => wb.end_container()?,
+            "i1" => wb.i8(tag, t.arg.parse().unwrap())?,
+            "i2" => wb.i16(tag, t.arg.parse().unwrap())?,
+            "i4" => wb.i32(tag, t.arg.parse().unwrap())?,
+            "i8" => wb.i64(tag, t.arg.parse().unwrap())?,
+            "u1" => wb.u8(tag, t.arg.parse().unwrap())?,
+            "u2" => wb.u16(tag, t.arg.parse().unwrap())?,
+            "u4" => wb.u32(tag, t.arg.parse().unwrap())?,
+            "u8" => wb.u64(tag, t.arg.parse().unwrap())?,
+            "f32" => wb.f32(tag, f32::from_bits(t.arg.parse().unwrap()))?,
+            "f64" => wb.f64(tag, f64::from_bits(t.arg.parse().unwrap()))?,
+            "str" => wb.str(tag, &t.payload)?,
+            "utf8" => wb.utf8(tag, core::str::from_utf8(&t.payload).unwrap())?,
+            "bool" => wb.bool(tag, t.arg == "1")?,
+            "null" => wb.null(tag)?,
+            other => panic!("bad op {}", other),
+        }
+    }
+    Ok(wb.as_slice().to_vec())
+}
+
+/// The same tokens through the `TLV` constructors and `TLV::bytes_iter`.
+fn write_iter(toks: &[Tok]) -> Vec<u8> {
+    let mut out = Vec::new();
+    for t in toks {
+        let tag = t.tag.clone();
+        let tlv = match t.kind.as_str() {
+            "L" => TLV::new(tag, val_of(&t.arg, &t.payload)),
+            "N" => match t.arg.as_str() {
+                "0" => TLV::structure(tag),
+                "1" => TLV::array(tag),
+                _ => TLV::list(tag),
+            },
+            "E" => TLV::end_container(),
+            "i1" => TLV::i8(tag, t.arg.parse().unwrap()),
+            "i2" => TLV::i16(tag, t.arg.parse().unwrap()),
+            "i4" => TLV::i32(tag, t.arg.parse().unwrap()),
+            "i8" => TLV::i64(tag, t.arg.parse().unwrap()),
+            "u1" => TLV::u8(tag, t.arg.parse().unwrap()),
+            "u2" => TLV::u16(tag, t.arg.parse().unwrap()),
+            "u4" => TLV::u32(tag, t.arg.parse().unwrap()),
+            "u8" => TLV::u64(tag, t.arg.parse().unwrap()),
+            "f32" => TLV::f32(tag, f32::from_bits(t.arg.parse().unwrap())),
+            "f64" => TLV::f64(tag, f64::from_bits(t.arg.parse().unwrap())),
+            "str" => TLV::str(tag, &t.payload),
+            "utf8" => TLV::utf8(tag, core::str::from_utf8(&t.payload).unwrap()),
+            "bool" => TLV::bool(tag, t.arg == "1"),
+            "null" => TLV::null(tag),
+            other => panic!("bad op {}", other),
+        };
+        out.extend(tlv.bytes_iter());
+    }
+    out
+}
+
+fn run_writer(kind: &str, id: &str, toks: &[&str], out: &mut String) {
+    let toks: Vec<Tok> = toks.iter().map(|t| parse_tok(t)).collect();
+    let size: usize = toks.iter().map(|t| t.payload.len() + 32).sum::<usize>() + 64;
+    let r = catch(AssertUnwindSafe(|| {
+        let mut buf = vec![0u8; size];
+        let a = write_direct(&toks, &mut buf);
+        let b = write_iter(&toks);
+        (a, b)
+    }));
+    match r {
+        Err(_) => writeln!(out, "{} {} P", kind, id).unwrap(),
+        Ok((Err(_), _)) => writeln!(out, "{} {} E", kind, id).unwrap(),
+        Ok((Ok(a), b)) => {
+            if a == b {
+                writeln!(out, "{} {} {}", kind, id, hex(&a)).unwrap()
+            } else {
+                writeln!(out, "{} {} {}!=iter:{}", kind, id, hex(&a), hex(&b)).unwrap()
+            }
+        }
+    }
+}
+
+// ------------------------------------------------------------------ derived encoders (tested only)
+
+#[derive(Debug, Clone, PartialEq, FromTLV, ToTLV)]
+struct Inner {
+    a: u8,
+    b: Option<i32>,
+    c: bool,
+}
+
+type Arr3 = [u8; 3];
+
+#[derive(Debug, Clone, PartialEq, FromTLV, ToTLV)]
+#[tlvargs(lifetime = "'a")]
+struct Mixed<'a> {
+    u_8: u8,
+    u_16: u16,
+    u_32: u32,
+    u_64: u64,
+    i_8: i8,
+    i_16: i16,
+    i_32: i32,
+    i_64: i64,
+    flag: bool,
+    opt: Option<u32>,
+    nul: Nullable<u16>,
+    inner: Inner,
+    octets: OctetStr<'a>,
+    text: Utf8Str<'a>,
+    arr: Arr3,
+    #[tagval(0xFE)]
+    fab_idx: u8,
+}
+
+#[derive(Debug, Clone, PartialEq, FromTLV, ToTLV)]
+enum Choice {
+    First(u32),
+    Second(Inner),
+}
+
+#[derive(Debug, Clone, PartialEq, FromTLV, ToTLV)]
+#[tlvargs(datatype = "list")]
+struct AsList {
+    x: Option<u16>,
+    y: Option<u64>,
+}
+
+fn pick_u64(r: &mut Rng) -> u64 {
+    const E: [u64; 14] = [
+        0,
+        1,
+        127,
+        128,
+        255,
+        256,
+        32767,
+        32768,
+        65535,
+        65536,
+        0x7fff_ffff,
+        0xffff_ffff,
+        0x1_0000_0000,
+        u64::MAX,
+    ];
+    match r.below(3) {
+        0 => *r.pick(&E),
+        1 => r.next() >> r.below(64),
+        _ => r.next(),
+    }
+}
+
+fn pick_i64(r: &mut Rng) -> i64 {
+    const E: [i64; 16] = [
+        0,
+        -1,
+        127,
+        128,
+        -128,
+        -129,
+        32767,
+        32768,
+        -32768,
+        -32769,
+        2147483647,
+        2147483648,
+        -2147483648,
+        -2147483649,
+        i64::MAX,
+        i64::MIN,
+    ];
+    match r.below(3) {
+        0 => *r.pick(&E),
+        1 => (r.next() as i64) >> r.below(64),
+        _ => r.next() as i64,
+    }
+}
+
+macro_rules! opt {
+    ($r:expr, $v:expr $(,)?) => {{
+        let v = $v;
+        if $r.chance(2, 3) {
+            Some(v)
+        } else {
+            None
+        }
+    }};
+}
+
+/// Hostile-input decoding per kind: the derived decoder must return, never panic or spin.
+fn derived_hostile(kind: &str, m: &[u8]) -> Result<(), String> {
+    let res = catch(AssertUnwindSafe(|| {
+        let el = TLVElement::new(m);
+        match kind {
+            "mixed" => {
+                let _ = Mixed::from_tlv(&el);
+            }
+            "choice" => {
+                let _ = Choice::from_tlv(&el);
+            }
+            "aslist" => {
+                let _ = AsList::from_tlv(&el);
+            }
+            "attrpath" => {
+                let _ = AttrPath::from_tlv(&el);
+            }
+            "eventpath" => {
+                let _ = EventPath::from_tlv(&el);
+            }
+            "cmdpath" => {
+                let _ = CmdPath::from_tlv(&el);
+            }
+            "dvf" => {
+                let _ = DataVersionFilter::from_tlv(&el);
+            }
+            "timed" => {
+                let _ = TimedReq::from_tlv(&el);
+            }
+            "attrstatus" => {
+                let _ = AttrStatus::from_tlv(&el);
+            }
+            "array" => {
+                // a typed array of a derived struct, iterated and debug-printed (bounded)
+                if let Ok(a) = TLVArray::<Inner>::from_tlv(&el) {
+                    let mut k = 0usize;
+                    for it in a.iter() {
+                        let _ = it;
+                        k += 1;
+                        if k > m.len() + 3 {
+                            panic!("TLVArray iteration does not terminate");
+                        }
+                    }
+                    struct Bounded(usize);
+                    impl std::fmt::Write for Bounded {
+                        fn write_str(&mut self, s: &str) -> std::fmt::Result {
+                            self.0 += s.len();
+                            if self.0 > 1_000_000 {
+                                panic!("Debug of TLVArray does not terminate");
+                            }
+                            Ok(())
+                        }
+                    }
+                    let mut w = Bounded(0);
+                    let _ = write!(w, "{:?}", a);
+                }
+            }
+            _ => {}
+        }
+    }));
+    res.map_err(|p| {
+        format!(
+            "PANIC on hostile input {}: {}",
+            hex(m),
+            p.lines().next().unwrap_or("")
+        )
+    })
+}
+
+fn hostile_variants(direct: &[u8], r: &mut Rng) -> Vec<Vec<u8>> {
+    let mut variants: Vec<Vec<u8>> = Vec::new();
+    for cut in 0..direct.len() {
+        variants.push(direct[..cut].to_vec());
+    }
+    for i in 0..direct.len() {
+        for x in [0x00u8, 0x18, 0x15, 0x16, 0x13, 0x0f, 0xff, 0x04, 0x24] {
+            let mut m = direct.to_vec();
+            m[i] = x;
+            variants.push(m);
+        }
+        let mut m = direct.to_vec();
+        m[i] ^= 1 << r.below(8);
+        variants.push(m);
+    }
+    variants
+}
+
+/// Encode `v` with to_tlv and with tlv_iter (same bytes), re-encode the encoded element through
+/// `ToTLV for TLVElement` both ways (same bytes), decode it back (equal value), then feed hostile
+/// variants of the encoding to the derived decoder.
+macro_rules! derived_case {
+    ($kind:expr, $ty:ty, $v:expr, $r:expr) => {{
+        let v: $ty = $v;
+        (|| -> Result<u32, String> {
+            let mut tmp = vec![0u8; 4096];
+            let mut wb = WriteBuf::new(&mut tmp);
+            v.to_tlv(&TLVTag::Anonymous, &mut wb)
+                .map_err(|e| format!("to_tlv error {:?} for {:?}", e.code(), v))?;
+            let direct = wb.as_slice().to_vec();
+            let mut via_iter = Vec::new();
+            for t in v.tlv_iter(TLVTag::Anonymous) {
+                let t = t.map_err(|e| format!("tlv_iter error {:?}", e.code()))?;
+                via_iter.extend(t.bytes_iter());
+            }
+            if via_iter != direct {
+                return Err(format!(
+                    "to_tlv {} != tlv_iter {} for {:?}",
+                    hex(&direct),
+                    hex(&via_iter),
+                    v
+                ));
+            }
+            {
+                let el = TLVElement::new(&direct);
+                let mut tmp2 = vec![0u8; 4096];
+                let mut wb2 = WriteBuf::new(&mut tmp2);
+                el.to_tlv(&TLVTag::Anonymous, &mut wb2)
+                    .map_err(|e| format!("element to_tlv error {:?}", e.code()))?;
+                if wb2.as_slice() != &direct[..] {
+                    return Err(format!(
+                        "element to_tlv {} != {}",
+                        hex(wb2.as_slice()),
+                        hex(&direct)
+                    ));
+                }
+                let mut again = Vec::new();
+                for t in ToTLV::tlv_iter(&el, TLVTag::Anonymous) {
+                    let t = t.map_err(|e| format!("element tlv_iter error {:?}", e.code()))?;
+                    again.extend(t.bytes_iter());
+                }
+                if again != direct {
+                    return Err(format!(
+                        "element tlv_iter {} != {}",
+                        hex(&again),
+                        hex(&direct)
+                    ));
+                }
+            }
+            let el = TLVElement::new(&direct);
+            let back = <$ty>::from_tlv(&el)
+                .map_err(|e| format!("from_tlv error {:?} on {}", e.code(), hex(&direct)))?;
+            if back != v {
+                return Err(format!("decoded {:?} != written {:?}", back, v));
+            }
+            let mut n = 0u32;
+            for m in hostile_variants(&direct, $r) {
+                derived_hostile($kind, &m)?;
+                n += 1;
+            }
+            Ok(n)
+        })()
+    }};
+}
+
+fn run_derived(id: &str, kind: &str, seed: u64, out: &mut String) {
+    let mut rng = Rng::new(seed);
+    let r = &mut rng;
+    let octets: Vec<u8> = (0..r.below(40)).map(|_| r.next() as u8).collect();
+    let text: String = (0..r.below(20))
+        .map(|_| *r.pick(&['a', 'Z', '0', ' ', '\u{e9}', '\u{4e16}', '\u{1f600}']))
+        .collect();
+    let inner = |r: &mut Rng| Inner {
+        a: pick_u64(r) as u8,
+        b: opt!(r, pick_i64(r) as i32),
+        c: r.chance(1, 2),
+    };
+    let res = match kind {
+        "mixed" => {
+            let nul_v = pick_u64(r) as u16;
+            let v = Mixed {
+                u_8: pick_u64(r) as u8,
+                u_16: pick_u64(r) as u16,
+                u_32: pick_u64(r) as u32,
+                u_64: pick_u64(r),
+                i_8: pick_i64(r) as i8,
+                i_16: pick_i64(r) as i16,
+                i_32: pick_i64(r) as i32,
+                i_64: pick_i64(r),
+                flag: r.chance(1, 2),
+                opt: opt!(r, pick_u64(r) as u32),
+                nul: if r.chance(1, 3) || nul_v == u16::MAX {
+                    Nullable::none()
+                } else {
+                    Nullable::some(nul_v)
+                },
+                inner: inner(r),
+                octets: Octets(&octets),
+                text: &text,
+                arr: [r.next() as u8, r.next() as u8, r.next() as u8],
+                fab_idx: r.next() as u8,
+            };
+            derived_case!("mixed", Mixed, v, r)
+        }
+        "choice" => {
+            let v = if r.chance(1, 2) {
+                Choice::First(pick_u64(r) as u32)
+            } else {
+                Choice::Second(inner(r))
+            };
+            derived_case!("choice", Choice, v, r)
+        }
+        "aslist" => {
+            let v = AsList {
+                x: opt!(r, pick_u64(r) as u16),
+                y: opt!(r, pick_u64(r)),
+            };
+            derived_case!("aslist", AsList, v, r)
+        }
+        "attrpath" => {
+            let li = pick_u64(r) as u16;
+            let v = AttrPath {
+                tag_compression: opt!(r, r.chance(1, 2)),
+                node: opt!(r, pick_u64(r)),
+                endpoint: opt!(r, pick_u64(r) as u16),
+                cluster: opt!(r, pick_u64(r) as u32),
+                attr: opt!(r, pick_u64(r) as u32),
+                list_index: opt!(
+                    r,
+                    if li == u16::MAX || li % 3 == 0 {
+                        Nullable::none()
+                    } else {
+                        Nullable::some(li)
+                    },
+                ),
+            };
+            derived_case!("attrpath", AttrPath, v, r)
+        }
+        "eventpath" => {
+            let v = EventPath {
+                node: opt!(r, pick_u64(r)),
+                endpoint: opt!(r, pick_u64(r) as u16),
+                cluster: opt!(r, pick_u64(r) as u32),
+                event: opt!(r, pick_u64(r) as u32),
+                is_urgent: opt!(r, r.chance(1, 2)),
+            };
+            derived_case!("eventpath", EventPath, v, r)
+        }
+        "cmdpath" => {
+            let v = CmdPath {
+                endpoint: opt!(r, pick_u64(r) as u16),
+                cluster: opt!(r, pick_u64(r) as u32),
+                cmd: opt!(r, pick_u64(r) as u32),
+            };
+            derived_case!("cmdpath", CmdPath, v, r)
+        }
+        "dvf" => {
+            let v = DataVersionFilter {
+                path: ClusterPath {
+                    node: opt!(r, pick_u64(r)),
+                    endpoint: pick_u64(r) as u16,
+                    cluster: pick_u64(r) as u32,
+                },
+                data_ver: pick_u64(r) as u32,
+            };
+            derived_case!("dvf", DataVersionFilter, v, r)
+        }
+        "timed" => {
+            let v = TimedReq {
+                timeout: pick_u64(r) as u16,
+                interaction_model_revision: opt!(r, r.next() as u8),
+            };
+            derived_case!("timed", TimedReq, v, r)
+        }
+        "attrstatus" => {
+            let codes = [
+                IMStatusCode::Success,
+                IMStatusCode::Failure,
+                IMStatusCode::UnsupportedAccess,
+                IMStatusCode::InvalidAction,
+            ];
+            let v = AttrStatus {
+                path: AttrPath {
+                    tag_compression: None,
+                    node: opt!(r, pick_u64(r)),
+                    endpoint: opt!(r, pick_u64(r) as u16),
+                    cluster: opt!(r, pick_u64(r) as u32),
+                    attr: opt!(r, pick_u64(r) as u32),
+                    list_index: None,
+                },
+                status: Status::new(*r.pick(&codes), opt!(r, pick_u64(r) as u16)),
+            };
+            derived_case!("attrstatus", AttrStatus, v, r)
+        }
+        "array" => {
+            // an array of derived structs written through the slice encoder, read back as TLVArray
+            let n = r.below(5) as usize;
+            let xs: Vec<Inner> = (0..n).map(|_| inner(r)).collect();
+            (|| -> Result<u32, String> {
+                let mut tmp = vec![0u8; 4096];
+                let mut wb = WriteBuf::new(&mut tmp);
+                xs.as_slice()
+                    .to_tlv(&TLVTag::Anonymous, &mut wb)
+                    .map_err(|e| format!("to_tlv error {:?}", e.code()))?;
+                let direct = wb.as_slice().to_vec();
+                let el = TLVElement::new(&direct);
+                let arr = TLVArray::<Inner>::from_tlv(&el)
+                    .map_err(|e| format!("from_tlv {:?}", e.code()))?;
+                let back: Result<Vec<Inner>, Error> = arr.iter().collect();
+                let back = back.map_err(|e| format!("item error {:?}", e.code()))?;
+                if back != xs {
+                    return Err(format!("decoded {:?} != written {:?}", back, xs));
+                }
+                let mut k = 0u32;
+                for m in hostile_variants(&direct, r) {
+                    derived_hostile("array", &m)?;
+                    k += 1;
+                }
+                // a non-container where an array is expected must be an error, not a panic (F9d)
+                for m in [
+                    vec![0x04u8, 0x01],
+                    vec![0x24, 0x00, 0x01],
+                    vec![0x10, 0x00],
+                    vec![0x14],
+                ] {
+                    derived_hostile("array", &m)?;
+                    let el = TLVElement::new(&m);
+                    if TLVArray::<Inner>::from_tlv(&el).is_ok() {
+                        return Err(format!("TLVArray::from_tlv accepted non-array {}", hex(&m)));
+                    }
+                    k += 1;
+                }
+                Ok(k)
+            })()
+        }
+        other => Err(format!("unknown kind {}", other)),
+    };
+    match res {
+        Ok(n) => writeln!(out, "D {} ok {}", id, n).unwrap(),
+        Err(e) => writeln!(out, "D {} FAIL {}", id, e.replace('\n', " ")).unwrap(),
+    }
+}
+
+// ------------------------------------------------------------------ run
+
+fn run_line(line: &str, out: &mut String) {
+    let f: Vec<&str> = line.split(' ').collect();
+    match f[0] {
+        "R" => {
+            let bs = unhex(f[2]);
+            writeln!(out, "R {} {}", f[1], probe_fields(&bs).join(" ")).unwrap();
+        }
+        "X" => {
+            let prefix = unhex(f[2]);
+            let n: usize = f[3].parse().unwrap();
+            let total = 1usize << (8 * n);
+            let mut h: u64 = 0xcbf2_9ce4_8422_2325;
+            let mut panics = 0usize;
+            let mut bs = prefix.clone();
+            bs.resize(prefix.len() + n, 0);
+            for i in 0..total {
+                for k in 0..n {
+                    bs[prefix.len() + k] = (i >> (8 * (n - 1 - k))) as u8;
+                }
+                let fields = probe_fields(&bs);
+                panics += fields.iter().filter(|x| *x == "P" || *x == "F").count();
+                digest_str(&mut h, &fields.join(" "));
+            }
+            writeln!(out, "X {} {:016x} P={}", f[1], h, panics).unwrap();
+        }
+        "T" | "W" => run_writer(f[0], f[1], &f[2..], out),
+        "D" => run_derived(f[1], f[2], f[3].parse().unwrap(), out),
+        _ => {}
+    }
+}
+
+// ------------------------------------------------------------------ gen
+
+#[derive(Clone)]
+enum GVal {
+    S(u8, i64),
+    U(u8, u64),
+    Bool(bool),
+    F32(u32),
+    F64(u64),
+    Utf(u8, Vec<u8>),
+    Str(u8, Vec<u8>),
+    Null,
+}
+
+#[derive(Clone)]
+enum GTree {
+    Leaf(TLVTag, GVal),
+    Node(TLVTag, u8, Vec<GTree>),
+}
+
+struct LenField {
+    ctl: usize,
+    off: usize,
+    width: usize,
+    len: u64,
+}
+
+fn gval_tok(v: &GVal) -> String {
+    match v {
+        GVal::S(w, z) => format!("S{}:{}", w, z),
+        GVal::U(w, n) => format!("U{}:{}", w, n),
+        GVal::Bool(b) => format!("B{}", *b as u8),
+        GVal::F32(b) => format!("F32:{}", b),
+        GVal::F64(b) => format!("F64:{}", b),
+        GVal::Utf(w, s) => format!("T{}:{}", w, hex(s)),
+        GVal::Str(w, s) => format!("O{}:{}", w, hex(s)),
+        GVal::Null => "N".into(),
+    }
+}
+
+fn gtree_toks(t: &GTree, out: &mut Vec<String>) {
+    match t {
+        GTree::Leaf(tag, v) => out.push(format!("L,{},{}", tag_s(tag), gval_tok(v))),
+        GTree::Node(tag, k, cs) => {
+            out.push(format!("N,{},{}", tag_s(tag), k));
+            for c in cs {
+                gtree_toks(c, out);
+            }
+            out.push("E".into());
+        }
+    }
+}
+
+fn enc_tag(t: &TLVTag, out: &mut Vec<u8>) -> u8 {
+    match t {
+        TLVTag::Anonymous => 0,
+        TLVTag::Context(v) => {
+            out.push(*v);
+            1
+        }
+        TLVTag::CommonPrf16(v) => {
+            out.extend(v.to_le_bytes());
+            2
+        }
+        TLVTag::CommonPrf32(v) => {
+            out.extend(v.to_le_bytes());
+            3
+        }
+        TLVTag::ImplPrf16(v) => {
+            out.extend(v.to_le_bytes());
+            4
+        }
+        TLVTag::ImplPrf32(v) => {
+            out.extend(v.to_le_bytes());
+            5
+        }
+        TLVTag::FullQual48 {
+            vendor_id,
+            profile,
+            tag,
+        } => {
+            out.extend(vendor_id.to_le_bytes());
+            out.extend(profile.to_le_bytes());
+            out.extend(tag.to_le_bytes());
+            6
+        }
+        TLVTag::FullQual64 {
+            vendor_id,
+            profile,
+            tag,
+        } => {
+            out.extend(vendor_id.to_le_bytes());
+            out.extend(profile.to_le_bytes());
+            out.extend(tag.to_le_bytes());
+            7
+        }
+    }
+}
+
+fn widx(w: u8) -> u8 {
+    match w {
+        1 => 0,
+        2 => 1,
+        4 => 2,
+        _ => 3,
+    }
+}
+
+/// The generator's own encoder (inputs for the reader cases only), recording where length fields sit.
+fn genc(t: &GTree, out: &mut Vec<u8>, lens: &mut Vec<LenField>) {
+    let ctl = out.len();
+    out.push(0);
+    match t {
+        GTree::Leaf(tag, v) => {
+            let tt = enc_tag(tag, out);
+            let vt = match v {
+                GVal::S(w, z) => {
+                    out.extend(&z.to_le_bytes()[..*w as usize]);
+                    widx(*w)
+                }
+                GVal::U(w, n) => {
+                    out.extend(&n.to_le_bytes()[..*w as usize]);
+                    4 + widx(*w)
+                }
+                GVal::Bool(b) => 8 + *b as u8,
+                GVal::F32(b) => {
+                    out.extend(b.to_le_bytes());
+                    10
+                }
+                GVal::F64(b) => {
+                    out.extend(b.to_le_bytes());
+                    11
+                }
+                GVal::Utf(w, s) | GVal::Str(w, s) => {
+                    lens.push(LenField {
+                        ctl,
+                        off: out.len(),
+                        width: *w as usize,
+                        len: s.len() as u64,
+                    });
+                    out.extend(&(s.len() as u64).to_le_bytes()[..*w as usize]);
+                    out.extend(s);
+                    (if matches!(v, GVal::Utf(..)) { 12 } else { 16 }) + widx(*w)
+                }
+                GVal::Null => 20,
+            };
+            out[ctl] = (tt << 5) | vt;
+        }
+        GTree::Node(tag, k, cs) => {
+            let tt = enc_tag(tag, out);
+            out[ctl] = (tt << 5) | (21 + k);
+            for c in cs {
+                genc(c, out, lens);
+            }
+            out.push(0x18);
+        }
+    }
+}
+
+fn gen_tag(r: &mut Rng, ctx_heavy: bool) -> TLVTag {
+    let pick16 = |r: &mut Rng| *r.pick(&[0u16, 1, 255, 256, 0xfff1, 0xffff]);
+    let pick32 = |r: &mut Rng| *r.pick(&[0u32, 1, 65535, 65536, 0xaa55_feed, 0xffff_ffff]);
+    let k = if ctx_heavy { r.below(12) } else { r.below(8) };
+    match k {
+        0 => TLVTag::Anonymous,
+        2 => TLVTag::CommonPrf16(pick16(r)),
+        3 => TLVTag::CommonPrf32(pick32(r)),
+        4 => TLVTag::ImplPrf16(pick16(r)),
+        5 => TLVTag::ImplPrf32(pick32(r)),
+        6 => TLVTag::FullQual48 {
+            vendor_id: pick16(r),
+            profile: pick16(r),
+            tag: pick16(r),
+        },
+        7 => TLVTag::FullQual64 {
+            vendor_id: pick16(r),
+            profile: pick16(r),
+            tag: pick32(r),
+        },
+        _ => TLVTag::Context(*r.pick(&[0u8, 1, 2, 3, 5, 7, 254, 255])),
+    }
+}
+
+const UTF8_SAMPLES: [&str; 8] = [
+    "",
+    "a",
+    "Hello!",
+    "Tsch\u{fc}s",
+    "\u{4e16}\u{754c}",
+    "\u{1f600}",
+    "\u{7ff}\u{800}\u{ffff}\u{10000}\u{10ffff}",
+    "\u{0}\u{7f}\u{80}",
+];
+
+fn gen_bytes(r: &mut Rng, n: usize) -> Vec<u8> {
+    (0..n).map(|_| r.next() as u8).collect()
+}
+
+fn gen_utf8(r: &mut Rng, approx: usize) -> Vec<u8> {
+    let mut s = String::new();
+    while s.len() < approx {
+        s.push_str(*r.pick(&UTF8_SAMPLES[..]));
+        if r.chance(1, 4) {
+            s.push((b'a' + r.below(26) as u8) as char);
+        }
+    }
+    s.into_bytes()
+}
+
+fn gen_leaf(r: &mut Rng, hist: &mut BTreeMap<String, u64>) -> GVal {
+    let w = *r.pick(&[1u8, 2, 4, 8]);
+    let k = r.below(10);
+    let (name, v) = match k {
+        0 | 1 => {
+            let bits = 8 * w as u32;
+            let z = pick_i64(r);
+            let z = if bits == 64 {
+                z
+            } else {
+                (z << (64 - bits)) >> (64 - bits)
+            };
+            // extremes of the width
+            let z = match r.below(6) {
+                0 => {
+                    if bits == 64 {
+                        i64::MIN
+                    } else {
+                        -(1i64 << (bits - 1))
+                    }
+                }
+                1 => {
+                    if bits == 64 {
+                        i64::MAX
+                    } else {
+                        (1i64 << (bits - 1)) - 1
+                    }
+                }
+                _ => z,
+            };
+            ("signed", GVal::S(w, z))
+        }
+        2 | 3 => {
+            let bits = 8 * w as u32;
+            let n = pick_u64(r);
+            let n = if bits == 64 { n } else { n & ((1u64 << bits) - 1) };
+            let n = match r.below(6) {
+                0 => {
+                    if bits == 64 {
+                        u64::MAX
+                    } else {
+                        (1u64 << bits) - 1
+                    }
+                }
+                _ => n,
+            };
+            ("unsigned", GVal::U(w, n))
+        }
+        4 => ("bool", GVal::Bool(r.chance(1, 2))),
+        5 => {
+            if r.chance(1, 2) {
+                (
+                    "f32",
+                    GVal::F32(*r.pick(&[
+                        0u32,
+                        0x3eaa_aaab,
+                        0x418f_3333,
+                        0x7f80_0000,
+                        0xff80_0000,
+                        0x7fc0_0001,
+                        0xffff_ffff,
+                        0x8000_0000,
+                    ])),
+                )
+            } else {
+                (
+                    "f64",
+                    GVal::F64(*r.pick(&[
+                        0u64,
+                        0x3fd5_5555_5555_5555,
+                        0x7ff0_0000_0000_0000,
+                        0xfff0_0000_0000_0000,
+                        0x7ff8_0000_0000_0001,
+                        u64::MAX,
+                        1 << 63,
+                    ])),
+                )
+            }
+        }
+        6 | 7 => {
+            let n = match r.below(8) {
+                0 => 0,
+                1 => 255,
+                2 => 256,
+                _ => r.below(24) as usize,
+            };
+            if k == 6 {
+                let mut s = gen_utf8(r, n);
+                if w == 1 && s.len() > 255 {
+                    s.truncate(0);
+                }
+                ("utf8", GVal::Utf(w, s))
+            } else {
+                // the length must fit the width of its field
+                let w = if n > 255 && w == 1 { 2 } else { w };
+                ("octets", GVal::Str(w, gen_bytes(r, n)))
+            }
+        }
+        _ => ("null", GVal::Null),
+    };
+    *hist.entry(name.to_string()).or_insert(0) += 1;
+    v
+}
+
+fn gen_tree(r: &mut Rng, depth: u32, hist: &mut BTreeMap<String, u64>) -> GTree {
+    if depth == 0 || r.chance(3, 5) {
+        GTree::Leaf(gen_tag(r, true), gen_leaf(r, hist))
+    } else {
+        let n = r.below(5) as usize;
+        *hist.entry("container".into()).or_insert(0) += 1;
+        GTree::Node(
+            gen_tag(r, true),
+            r.below(3) as u8,
+            (0..n).map(|_| gen_tree(r, depth - 1, hist)).collect(),
+        )
+    }
+}
+
+fn gen_root(r: &mut Rng, depth: u32, hist: &mut BTreeMap<String, u64>) -> GTree {
+    let n = 1 + r.below(5) as usize;
+    *hist.entry("container".into()).or_insert(0) += 1;
+    GTree::Node(
+        gen_tag(r, false),
+        r.below(3) as u8,
+        (0..n).map(|_| gen_tree(r, depth - 1, hist)).collect(),
+    )
+}
+
+struct Out {
+    lines: Vec<String>,
+    stats: BTreeMap<String, u64>,
+    id: u64,
+}
+
+impl Out {
+    fn push(&mut self, stream: &str, kind: &str, body: String) {
+        self.id += 1;
+        *self.stats.entry(stream.to_string()).or_insert(0) += 1;
+        self.lines.push(format!("{} {} {}", kind, self.id, body));
+    }
+    fn r(&mut self, stream: &str, b: &[u8]) {
+        let h = if b.is_empty() { "-".to_string() } else { hex(b) };
+        self.push(stream, "R", h);
+    }
+}
+
+fn gen(tier: &str, seed: u64, outdir: &str) {
+    let thorough = tier == "thorough";
+    let mut rng = Rng::new(seed ^ 0xC16);
+    let r = &mut rng;
+    let mut o = Out {
+        lines: Vec::new(),
+        stats: BTreeMap::new(),
+        id: 0,
+    };
+    let mut hist: BTreeMap<String, u64> = BTreeMap::new();
+
+    // 0. recorded witnesses (F9a, F9b, F9c and relatives) first
+    let witnesses: [&[u8]; 12] = [
+        &[0x15, 0x13, 0xff, 0xff, 0xff, 0xff, 0xff, 0xff, 0xff, 0xff],
+        &[0x15, 0x04, 0x00, 0x18],
+        &[0x15, 0x35, 0x01, 0x04, 0x07, 0x18, 0x04, 0x09, 0x18],
+        &[0x15, 0x04, 0x00, 0x35, 0x01, 0x04, 0x07, 0x18, 0x04, 0x09, 0x18],
+        &[0x13, 0xff, 0xff, 0xff, 0xff, 0xff, 0xff, 0xff, 0xff],
+        &[0x0f, 0xff, 0xff, 0xff, 0xff, 0xff, 0xff, 0xff, 0xff],
+        &[0x15, 0x10, 0x01, 0x41, 0x13, 0xf0, 0xff, 0xff, 0xff, 0xff, 0xff, 0xff, 0xff],
+        &[0x16, 0xff, 0x18],
+        &[0x15, 0x15, 0x15, 0x18, 0x18, 0x18],
+        &[0x15, 0x38, 0x18],
+        &[0x18, 0x18],
+        &[0x15, 0x24, 0x00, 0x01, 0x18],
+    ];
+    for w in witnesses {
+        o.r("witness", w);
+    }
+
+    // 1. exhaustive: all byte strings of length 0, 1, 2 (and 3 in the thorough tier), as digests
+    o.push("sweep", "X", "- 0".into());
+    o.push("sweep", "X", "- 1".into());
+    for b0 in 0..=255u8 {
+        o.push("sweep", "X", format!("{:02x} 1", b0));
+    }
+    if thorough {
+        for b0 in 0..=255u8 {
+            o.push("sweep3", "X", format!("{:02x} 2", b0));
+        }
+    }
+    // every control byte followed by a few fixed tails, explicitly (visible in the evidence samples)
+    for b0 in 0..=255u8 {
+        for tail in [
+            &[][..],
+            &[0x00][..],
+            &[0x01, 0x41][..],
+            &[0x02, 0x00, 0x18][..],
+            &[0xff; 9][..],
+        ] {
+            let mut b = vec![b0];
+            b.extend_from_slice(tail);
+            o.r("control-bytes", &b);
+        }
+    }
+
+    // 2. valid encodings and their hostile variants
+    let n_trees = if thorough { 1500 } else { 260 };
+    const BOUND: [u64; 6] = [0, 1, 0xff, 0xffff, 0xffff_ffff, 1 << 63];
+    for ti in 0..n_trees {
+        let depth = 1 + (ti % 5) as u32;
+        let t = gen_root(r, depth, &mut hist);
+        let mut enc = Vec::new();
+        let mut lens = Vec::new();
+        genc(&t, &mut enc, &mut lens);
+        o.r("valid", &enc);
+        // valid encoding followed by trailing data
+        let mut tr = enc.clone();
+        let extra = 1 + r.below(4) as usize;
+        tr.extend(gen_bytes(r, extra));
+        o.r("valid+trailing", &tr);
+        // (ii) every length field replaced by boundary values, in place and widened to 8 bytes
+        for lf in &lens {
+            let mut vals: Vec<u64> = BOUND.to_vec();
+            vals.push(u64::MAX);
+            vals.push(lf.len.wrapping_sub(1));
+            vals.push(lf.len + 1);
+            vals.push((enc.len() - lf.off) as u64);
+            vals.push(u64::MAX - 8);
+            vals.push(u64::MAX - (lf.off as u64 + lf.width as u64));
+            for v in vals {
+                let mut m = enc.clone();
+                m[lf.off..lf.off + lf.width].copy_from_slice(&v.to_le_bytes()[..lf.width]);
+                o.r("lenfield-inplace", &m);
+                let mut m = enc[..lf.off].to_vec();
+                m[lf.ctl] = (m[lf.ctl] & 0xfc) | 3;
+                m.extend(v.to_le_bytes());
+                m.extend(&enc[lf.off + lf.width..]);
+                o.r("lenfield-wide", &m);
+            }
+        }
+        // (iii) truncation at every offset (long encodings: every offset near the ends + a sample)
+        for cut in 0..enc.len() {
+            if enc.len() <= 48 || cut < 12 || cut + 12 > enc.len() || r.chance(1, 6) {
+                o.r("truncated", &enc[..cut]);
+            }
+        }
+        // single byte replaced (control bytes, end markers, random)
+        let nmut = if thorough { 24 } else { 10 };
+        for _ in 0..nmut {
+            let mut m = enc.clone();
+            let i = r.below(m.len() as u64) as usize;
+            m[i] = match r.below(4) {
+                0 => 0x18,
+                1 => *r.pick(&[0x15u8, 0x16, 0x17, 0x35, 0x36, 0x37]),
+                2 => *r.pick(&[0x0cu8, 0x0d, 0x0e, 0x0f, 0x10, 0x11, 0x12, 0x13, 0x2f, 0x33]),
+                _ => r.next() as u8,
+            };
+            o.r("byte-replaced", &m);
+        }
+        // an end-of-container removed / inserted
+        if let Some(p) = enc.iter().rposition(|b| *b == 0x18) {
+            let mut m = enc.clone();
+            m.remove(p);
+            o.r("end-removed", &m);
+        }
+        let mut m = enc.clone();
+        m.insert(r.below(enc.len() as u64 + 1) as usize, 0x18);
+        o.r("end-inserted", &m);
+    }
+
+    // nesting depth: d open containers, d (or d±1) closes
+    for d in [1usize, 2, 3, 8, 32, 100, 200] {
+        for (opens, closes) in [(d, d), (d, d - 1), (d, d + 1), (d, 0)] {
+            let mut b = vec![0x15u8; opens];
+            b.extend(vec![0x18u8; closes]);
+            o.r("nesting", &b);
+        }
+        let mut b = Vec::new();
+        for i in 0..d {
+            b.extend([0x35 + (i % 3) as u8, i as u8]);
+        }
+        b.extend([0x24, 0x07, 0x2a]);
+        b.extend(vec![0x18u8; d]);
+        o.r("nesting", &b);
+    }
+
+    // (iv) random bytes, plain and biased towards control bytes / small lengths
+    let n_rand = if thorough { 60000 } else { 6000 };
+    for i in 0..n_rand {
+        let n = 1 + r.below(if i % 4 == 0 { 40 } else { 12 }) as usize;
+        let b: Vec<u8> = (0..n)
+            .map(|_| match r.below(4) {
+                0 => r.next() as u8,
+                1 => *r.pick(&[
+                    0x15u8, 0x16, 0x17, 0x18, 0x35, 0x24, 0x04, 0x00, 0x0c, 0x10, 0x13, 0x0f, 0x14,
+                    0x08, 0x09,
+                ]),
+                2 => r.below(4) as u8,
+                _ => (r.below(8) << 5) as u8 | r.below(26) as u8,
+            })
+            .collect();
+        o.r("random", &b);
+    }
+
+    // utf-8 validity: all 1-byte strings, boundary 2/3/4-byte sequences, as Utf8l payloads
+    for a in 0..=255u8 {
+        o.r("utf8", &[0x0c, 0x01, a]);
+    }
+    for a in (0xc0..=0xffu8).chain([0x7f, 0x80, 0xbf]) {
+        for b in [0x00u8, 0x7f, 0x80, 0x8f, 0x90, 0x9f, 0xa0, 0xbf, 0xc0, 0xff] {
+            o.r("utf8", &[0x0c, 0x02, a, b]);
+            o.r("utf8", &[0x0c, 0x03, a, b, 0x80]);
+            o.r("utf8", &[0x0c, 0x03, a, b, 0xbf]);
+            o.r("utf8", &[0x0c, 0x04, a, b, 0x80, 0x80]);
+            o.r("utf8", &[0x0c, 0x04, a, b, 0xbf, 0xc0]);
+        }
+    }
+
+    // 3. writer: trees with explicit widths
+    let n_wtrees = if thorough { 12000 } else { 1500 };
+    for ti in 0..n_wtrees {
+        let depth = 1 + (ti % 6) as u32;
+        let t = if ti % 7 == 0 {
+            GTree::Leaf(gen_tag(r, false), gen_leaf(r, &mut hist))
+        } else {
+            gen_root(r, depth, &mut hist)
+        };
+        let mut toks = Vec::new();
+        gtree_toks(&t, &mut toks);
+        o.push("writer-tree", "T", toks.join(" "));
+    }
+    // strings whose length sits at each boundary of the length-field widths (explicit widths)
+    for n in [0usize, 1, 254, 255, 256, 257, 65535, 65536] {
+        for w in [1u8, 2, 4, 8] {
+            if (w == 1 && n > 255) || (w == 2 && n > 65535) {
+                continue;
+            }
+            let t = GTree::Leaf(TLVTag::Context(1), GVal::Str(w, vec![0x5a; n]));
+            let mut toks = Vec::new();
+            gtree_toks(&t, &mut toks);
+            o.push("writer-tree", "T", toks.join(" "));
+            let t = GTree::Leaf(TLVTag::Anonymous, GVal::Utf(w, vec![b'x'; n]));
+            let mut toks = Vec::new();
+            gtree_toks(&t, &mut toks);
+            o.push("writer-tree", "T", toks.join(" "));
+        }
+    }
+
+    // 4. writer: the minimal-width API, one call per case, every boundary of every width
+    let ivals: Vec<i64> = vec![
+        0,
+        1,
+        -1,
+        126,
+        127,
+        128,
+        129,
+        -127,
+        -128,
+        -129,
+        -130,
+        255,
+        256,
+        32766,
+        32767,
+        32768,
+        -32767,
+        -32768,
+        -32769,
+        65535,
+        65536,
+        2147483646,
+        2147483647,
+        2147483648,
+        -2147483647,
+        -2147483648,
+        -2147483649,
+        4294967295,
+        4294967296,
+        i64::MAX - 1,
+        i64::MAX,
+        i64::MIN + 1,
+        i64::MIN,
+    ];
+    let uvals: Vec<u64> = vec![
+        0,
+        1,
+        127,
+        128,
+        254,
+        255,
+        256,
+        257,
+        65534,
+        65535,
+        65536,
+        65537,
+        4294967294,
+        4294967295,
+        4294967296,
+        4294967297,
+        (1 << 63) - 1,
+        1 << 63,
+        u64::MAX - 1,
+        u64::MAX,
+    ];
+    let n_rnd = if thorough { 2000 } else { 150 };
+    for (w, lo, hi) in [
+        (1u8, i8::MIN as i64, i8::MAX as i64),
+        (2, i16::MIN as i64, i16::MAX as i64),
+        (4, i32::MIN as i64, i32::MAX as i64),
+        (8, i64::MIN, i64::MAX),
+    ] {
+        for v in ivals.iter().filter(|v| **v >= lo && **v <= hi) {
+            let tag = gen_tag(r, true);
+            o.push("writer-minwidth", "W", format!("i{},{},{}", w, tag_s(&tag), v));
+        }
+        for _ in 0..n_rnd {
+            let v = pick_i64(r).clamp(lo, hi);
+            let tag = gen_tag(r, true);
+            o.push("writer-minwidth", "W", format!("i{},{},{}", w, tag_s(&tag), v));
+        }
+    }
+    for (w, hi) in [
+        (1u8, u8::MAX as u64),
+        (2, u16::MAX as u64),
+        (4, u32::MAX as u64),
+        (8, u64::MAX),
+    ] {
+        for v in uvals.iter().filter(|v| **v <= hi) {
+            let tag = gen_tag(r, true);
+            o.push("writer-minwidth", "W", format!("u{},{},{}", w, tag_s(&tag), v));
+        }
+        for _ in 0..n_rnd {
+            let v = pick_u64(r).min(hi);
+            let tag = gen_tag(r, true);
+            o.push("writer-minwidth", "W", format!("u{},{},{}", w, tag_s(&tag), v));
+        }
+    }
+    for n in [0usize, 1, 2, 100, 254, 255, 256, 257, 1000, 65534, 65535, 65536, 65537] {
+        let tag = gen_tag(r, true);
+        let data = gen_bytes(r, n);
+        o.push("writer-minwidth", "W", format!("str,{},{}", tag_s(&tag), hex(&data)));
+        o.push("writer-minwidth", "W", format!("utf8,{},{}", tag_s(&tag), hex(&vec![b'q'; n])));
+    }
+    for _ in 0..(if thorough { 1500 } else { 200 }) {
+        let tag = gen_tag(r, true);
+        let tok = match r.below(6) {
+            0 => format!("bool,{},{}", tag_s(&tag), r.below(2)),
+            1 => format!("null,{}", tag_s(&tag)),
+            2 => format!("f32,{},{}", tag_s(&tag), r.next() as u32),
+            3 => format!("f64,{},{}", tag_s(&tag), r.next()),
+            4 => {
+                let n = r.below(300) as usize;
+                format!("str,{},{}", tag_s(&tag), hex(&gen_bytes(r, n)))
+            }
+            _ => {
+                let n = r.below(300) as usize;
+                format!("utf8,{},{}", tag_s(&tag), hex(&gen_utf8(r, n)))
+            }
+        };
+        o.push("writer-minwidth", "W", tok);
+    }
+
+    // 5. derived encoders (implementation only)
+    let kinds = [
+        "mixed",
+        "choice",
+        "aslist",
+        "attrpath",
+        "eventpath",
+        "cmdpath",
+        "dvf",
+        "timed",
+        "attrstatus",
+        "array",
+    ];
+    let per_kind = if thorough { 200 } else { 24 };
+    for k in kinds {
+        for _ in 0..per_kind {
+            let s = r.next() >> 1;
+            o.push("derived", "D", format!("{} {}", k, s));
+        }
+    }
+
+    let mut f = std::fs::File::create(format!("{}/cases.txt", outdir)).unwrap();
+    for l in &o.lines {
+        writeln!(f, "{}", l).unwrap();
+    }
+    let mut s = String::from("{\n \"streams\": {");
+    let mut first = true;
+    for (k, v) in &o.stats {
+        if !first {
+            s.push(',');
+        }
+        first = false;
+        write!(s, "\n  \"{}\": {}", k, v).unwrap();
+    }
+    s.push_str("\n },\n \"tree_nodes_by_kind\": {");
+    first = true;
+    for (k, v) in &hist {
+        if !first {
+            s.push(',');
+        }
+        first = false;
+        write!(s, "\n  \"{}\": {}", k, v).unwrap();
+    }
+    s.push_str("\n }\n}\n");
+    std::fs::write(format!("{}/stats.json", outdir), s).unwrap();
+}
+
+// ------------------------------------------------------------------ F9 replay
+
+fn f9() {
+    let show = |name: &str, r: Result<String, String>| match r {
+        Ok(v) => println!("{}: {}", name, v),
+        Err(p) => println!("{}: PANIC {}", name, p.lines().next().unwrap_or("")),
+    };
+    show(
+        "F9a TLVElement::new(&[0x15,0x13,0xff x8]).raw_value()",
+        catch(|| {
+            format!(
+                "{:?}",
+                TLVElement::new(&[0x15, 0x13, 0xff, 0xff, 0xff, 0xff, 0xff, 0xff, 0xff, 0xff])
+                    .raw_value()
+                    .map(|s| s.len())
+                    .map_err(|e| e.code())
+            )
+        }),
+    );
+    show(
+        "F9b TLVElement::new(&[0x15,0x04,0x00,0x18]).structure()?.tlv_iter()",
+        catch(|| {
+            let s = TLVElement::new(&[0x15, 0x04, 0x00, 0x18]).structure().unwrap();
+            tlv_items(&s, 10).unwrap_or("unbounded".into())
+        }),
+    );
+    show(
+        "F9c tlv_iter of {0, 1:{7}, 9}",
+        catch(|| {
+            let s = TLVElement::new(&[
+                0x15, 0x04, 0x00, 0x35, 0x01, 0x04, 0x07, 0x18, 0x04, 0x09, 0x18,
+            ])
+            .structure()
+            .unwrap();
+            tlv_items(&s, 20).unwrap_or("unbounded".into())
+        }),
+    );
+    show(
+        "F9d TLVArray::<u8>::from_tlv(U8 element).iter()",
+        catch(|| match TLVArray::<u8>::from_tlv(&TLVElement::new(&[0x04, 0x01])) {
+            Err(e) => format!("Err({:?})", e.code()),
+            Ok(a) => format!("Ok, {} items", a.iter().take(3).count()),
+        }),
+    );
+    show(
+        "F9e items yielded by iter() over the content of [0x16,0xff,0x18] (cap 10)",
+        catch(|| {
+            let s = TLVElement::new(&[0x16, 0xff, 0x18]).array().unwrap();
+            items(&s, 10).unwrap_or("unbounded".into())
+        }),
+    );
+    show(
+        "F9f TLV::new(Anonymous, Str64l([1,2,3])).bytes_iter()",
+        catch(|| {
+            hex(&TLV::new(TLVTag::Anonymous, TLVValue::Str64l(&[1, 2, 3]))
+                .bytes_iter()
+                .collect::<Vec<u8>>())
+        }),
+    );
+}
+
 fn main() {
+    let a: Vec<String> = std::env::args().collect();
     silence_panics();
-    show("F9a raw_value", catch(|| {
-        TLVElement::new(&[0x15, 0x13, 0xff, 0xff, 0xff, 0xff, 0xff, 0xff, 0xff, 0xff]).raw_value().map(|s| s.len()).map_err(|e| e.code())
-    }));
-    show("F9a value", catch(|| {
-        TLVElement::new(&[0x15, 0x13, 0xff, 0xff, 0xff, 0xff, 0xff, 0xff, 0xff, 0xff]).value().map(|_| ()).map_err(|e| e.code())
-    }));
-    show("F9b tlv_iter", catch(|| {
-        let s = TLVElement::new(&[0x15, 0x04, 0x00, 0x18]).structure().unwrap();
-        s.tlv_iter().map(|r| format!("{:?}", r.map_err(|e| e.code()))).collect::<Vec<_>>()
-    }));
-    show("F9b element tlv_iter", catch(|| {
-        let e = TLVElement::new(&[0x15, 0x04, 0x00, 0x18]);
-        ToTLV::tlv_iter(&e, TLVTag::Anonymous).map(|r| format!("{:?}", r.map_err(|e| e.code()))).collect::<Vec<_>>()
-    }));
-    show("nested tlv_iter", catch(|| {
-        let e = TLVElement::new(&[0x15, 0x35, 0x01, 0x04, 0x07, 0x18, 0x04, 0x09, 0x18]);
-        ToTLV::tlv_iter(&e, TLVTag::Anonymous).map(|r| format!("{:?}", r.map_err(|e| e.code()))).collect::<Vec<_>>()
-    }));
-    show("nested tlv_iter (leading scalar)", catch(|| {
-        let e = TLVElement::new(&[0x15, 0x04, 0x00, 0x35, 0x01, 0x04, 0x07, 0x18, 0x04, 0x09, 0x18]);
-        ToTLV::tlv_iter(&e, TLVTag::Anonymous).map(|r| format!("{:?}", r.map_err(|e| e.code()))).collect::<Vec<_>>()
-    }));
-    show("TLVArray from non-container .iter()", catch(|| {
-        let e = TLVElement::new(&[0x04, 0x01]);
-        let a = TLVArray::<u8>::from_tlv(&e).map_err(|e| e.code())?;
-        Ok::<_, rs_matter::error::ErrorCode>(a.iter().take(3).map(|r| r.map_err(|e| e.code())).collect::<Vec<_>>())
-    }));
-    show("iter on malformed: errors repeat?", catch(|| {
-        let s = TLVElement::new(&[0x16, 0xff, 0x18]).array().unwrap();
-        s.iter().take(5).map(|r| r.map(|_| ()).map_err(|e| e.code())).collect::<Vec<_>>()
-    }));
-    show("bytes_iter Str64l", catch(|| {
-        TLV::new(TLVTag::Anonymous, TLVValue::Str64l(&[1, 2, 3])).bytes_iter().collect::<Vec<u8>>()
-    }));
-    show("TLVWrite::tlv Str64l", catch(|| {
-        let mut buf = [0u8; 32];
-        let mut wb = WriteBuf::new(&mut buf);
-        wb.tlv(&TLVTag::Anonymous, &TLVValue::Str64l(&[1, 2, 3])).unwrap();
-        wb.as_slice().to_vec()
-    }));
+    match a.get(1).map(|s| s.as_str()) {
+        Some("gen") => gen(&a[2], a[3].parse().unwrap(), &a[4]),
+        Some("run") => {
+            let text = std::fs::read_to_string(&a[2]).unwrap();
+            let mut out = String::new();
+            let stdout = std::io::stdout();
+            let mut lock = stdout.lock();
+            for line in text.lines() {
+                if line.is_empty() {
+                    continue;
+                }
+                run_line(line, &mut out);
+                if out.len() > 1 << 16 {
+                    lock.write_all(out.as_bytes()).unwrap();
+                    out.clear();
+                }
+            }
+            lock.write_all(out.as_bytes()).unwrap();
+        }
+        Some("f9") => f9(),
+        _ => {
+            eprintln!("usage: c16 gen <quick|thorough> <seed> <outdir> | run <cases-file> | f9");
+            std::process::exit(2);
+        }
+    }
 }
